@@ -655,7 +655,7 @@ theorem mem_dkeys_foldl_dset (ps acc : List (K × V)) (k : K) :
 
 def AOp.keyArgs : AOp K V → List K
   | .setitem k _ => [k] | .append k _ => [k] | .create ps => dkeys ps | .insert _ k _ => [k]
-  | .reorder o => dkeys o | .setdefault k _ => [k] | .update ps => dkeys ps | _ => []
+  | .reorder o => dkeys o | .setdefault k _ => [k] | .update ps => dkeys ps | .ior ps => dkeys ps | _ => []
 
 theorem mem_dkeys_create (ps m : List (K × V)) (k : K)
     (h : k ∈ dkeys (ps.foldl (fun m p => if dhas m p.1 then m else m ++ [p]) m)) :
@@ -742,6 +742,13 @@ theorem Spec.mem_dkeys_step [DecidableEq V] (m : List (K × V)) (op : AOp K V) (
     rcases (mem_dkeys_foldl_dset ps m k).1 h with h | h
     · exact .inr h
     · exact .inl h
+  | ior ps =>
+    simp only [Spec.step] at h
+    rcases (mem_dkeys_foldl_dset ps m k).1 h with h | h
+    · exact .inr h
+    · exact .inl h
+  | reversed => exact .inl h
+  | or _ => exact .inl h
   | getitem _ => exact .inl h
   | contains _ => exact .inl h
   | get _ _ => exact .inl h
@@ -776,6 +783,7 @@ def AOp.lower (lw : K → K) : AOp K V → AOp K V
   | .insert i k v => .insert i (lw k) v | .pop k d => .pop (lw k) d
   | .reorder o => .reorder (Spec.fromPairs (o.map (lo lw)))
   | .setdefault k d => .setdefault (lw k) d | .update ps => .update (ps.map (lo lw))
+  | .ior ps => .ior (ps.map (lo lw)) | .or ps => .or (ps.map (lo lw))
   | op => op
 
 variable {lower : K → K}
@@ -817,6 +825,11 @@ theorem keyArgs_lower (op : AOp K V) : ∀ k ∈ (op.lower lower).keyArgs, lower
     simp only [AOp.lower, AOp.keyArgs, dkeys_map_lo] at hk
     obtain ⟨x, _, rfl⟩ := List.mem_map.1 hk; exact hl x
   | reorder o => exact loweredM_fromPairs_lo hl o k hk
+  | ior ps =>
+    simp only [AOp.lower, AOp.keyArgs, dkeys_map_lo] at hk
+    obtain ⟨x, _, rfl⟩ := List.mem_map.1 hk; exact hl x
+  | reversed => simp [AOp.lower, AOp.keyArgs] at hk
+  | or _ => simp [AOp.lower, AOp.keyArgs] at hk
   | sift fs => cases fs <;> simp [AOp.lower, AOp.keyArgs] at hk
   | delitem _ => simp [AOp.lower, AOp.keyArgs] at hk
   | getitem _ => simp [AOp.lower, AOp.keyArgs] at hk
